@@ -841,7 +841,8 @@ func (ch *clientHost) checkRedirect(repo string, orig func(req *http.Request, vi
 // Credentials of a registry configured for TLS are never sent in clear text to that registry,
 // e.g. after a redirect or with an external layer URL that uses the http scheme.
 func (ch *clientHost) authAllowed(u *url.URL) bool {
-	return u.Scheme != "http" || u.Host != ch.config.Hostname || ch.config.TLS == config.TLSDisabled
+	// host names are not case sensitive, the port is part of the host
+	return u.Scheme != "http" || !strings.EqualFold(u.Host, ch.config.Hostname) || ch.config.TLS == config.TLSDisabled
 }
 
 // getAuth returns an auth, which may be repository specific.
